@@ -65,8 +65,6 @@ theorem relative_roundtrip_aux (own target : Path)
     simp only [hkdef, hne, if_false]
     rw [leadingParents_replicate, leadingParents_noParent _ hdrop]
     simp only [Nat.add_zero]
-    have hle : own.comps.length - k ≤ own.comps.length := by omega
-    simp only [hle, if_true]
     have h1 : own.comps.length - (own.comps.length - k) = k := by omega
     rw [h1, List.drop_left' (by simp)]
     rw [htake, List.take_append_drop]
@@ -148,7 +146,12 @@ theorem withComponent_child (root : Obj) (pre : Addr) (sub c : Obj) (s : Step) (
         · exact h
         · rw [List.getElem?_eq_none h] at hc; cases hc
       simp [hlt]
-    | named key => cases hk
+    | named key =>
+      -- a named-only child of a well-formed node carries its key as (valid) name
+      simp only [Obj.child] at hc
+      obtain ⟨hvn, _, _⟩ := hwf.namedKeys key c hc
+      rw [hv] at hvn
+      cases hvn
 
 theorem contentLoop_compsOf (root : Obj) (hwf : WFTree root) (a : Addr) :
     ∀ (pre : Addr) (sub o : Obj) (cs : List Comp) (b : Bool),
